@@ -58,8 +58,9 @@ type Inst struct {
 	fsm    *RecFSM
 	notify chan bool
 	stopC  chan struct{}
-	wg     sync.WaitGroup
-	shut   atomic.Bool
+	wg      sync.WaitGroup
+	shut    atomic.Bool // Shutdown() was called deliberately (clean shutdown)
+	retired atomic.Bool // the incarnation crashed and is being torn down in the background
 }
 
 // Node is one server identity.
@@ -359,7 +360,7 @@ func (c *Cluster) Start(nd *Node) bool {
 // retire shuts an incarnation down in the background and stops its consumers
 // once every raft goroutine has exited.
 func (c *Cluster) retire(in *Inst) {
-	if in == nil || in.r == nil || !in.shut.CompareAndSwap(false, true) {
+	if in == nil || in.r == nil || !in.retired.CompareAndSwap(false, true) {
 		return
 	}
 	c.zmu.Lock()
